@@ -71,7 +71,7 @@ where
       obtain ⟨at0, m0⟩ := pr
       dsimp only
       apply key
-      rw [(updateSeg_store _ resp m0).1]
+      rw [(updateSeg_store _ (track resp m0) m0).1]
       exact aget_adel_same _ _
 
 /-- Unsegmented message, unanswered: reported by the first sweep after expiry, as itself. -/
